@@ -17,7 +17,7 @@ ASSUMPTIONS = ["objects whose own special methods raise are excluded, as the pro
 REACH_FILES = ['d42/validation/_validator.py', 'd42/validation/_formatter.py', 'd42/validation/__init__.py']
 TIERS = {"quick": dict(shards=16, cases=4000), "thorough": dict(shards=16, cases=30000)}
 
-PROF = Profile(max_depth=3, nonfinite=True, p_value=0.4,
+PROF = Profile(max_depth=3, nonfinite=True, p_value=0.4, wrap=0.06,
                kinds={"none": 1, "bool": 2, "int": 6, "float": 12, "str": 8, "list": 9, "dict": 9, "any": 4,
                       "bytes": 3, "uuid4": 4, "datetime": 4, "date": 4, "alias": 2})
 
@@ -107,7 +107,8 @@ def check_total(ctx, spec, schema, v, origin):
 
 def run_case(ctx, rng, case):
     spec = gen_spec(rng, PROF)
-    schema = O.try_build(ctx, spec)
+    from .. import custom
+    schema = O.try_build(ctx, spec, wrapper=custom.wrap)   # a few nodes are forwarding custom types (totality holds there too)
     if schema is None:
         return
     ctx.distinct(shape(spec), nontrivial(spec))
